@@ -88,9 +88,18 @@ def make_harness(k, oversize, faults, cancel, reorder):
                 submitted = out["submitted"] = []
                 real_put = ec.send_queue.put_nowait
 
+                plan_cancel = {}
+
                 def put_nowait(item):
-                    submitted.append(item[3] - 100)     # request number
-                    return real_put(item)
+                    no = item[3] - 100                  # request number
+                    submitted.append(no)
+                    r = real_put(item)
+                    if plan_cancel.get("who") == no and plan_cancel["when"] == 2:
+                        # cancelled right after queueing, before sendloop
+                        # takes the datagram off the queue
+                        reqs[no]["task"].cancel()
+                        reqs[no]["cancelled"] = "queued"
+                    return r
                 ec.send_queue.put_nowait = put_nowait
                 tr = ec.transport = Transport()
                 loop_task = real_ensure(ec.sendloop())
@@ -103,8 +112,9 @@ def make_harness(k, oversize, faults, cancel, reorder):
                     reqs.append(dict(i=i, n=n, d=d, task=t))
                 who = E.choose(k + 1, "which request is cancelled") - 1 \
                     if cancel else -1
-                when = E.choose(2, "cancel before or after sending") \
-                    if who >= 0 else 0
+                when = E.choose(3, "cancel before start / after sending / "
+                                   "right after queueing") if who >= 0 else 0
+                plan_cancel.update(who=who, when=when)
                 if who >= 0 and when == 0:
                     reqs[who]["task"].cancel()
                     reqs[who]["cancelled"] = "before"
@@ -250,6 +260,7 @@ def shapes(tier):
     out.append((2, False, True, False, 0))
     out.append((2, True, False, False, 0))
     out.append((1, True, False, False, 0))
+    out.append((2, True, False, True, 0))
     if tier != "quick":
         out.append((3, False, False, True, 0))
         out.append((3, False, True, False, 0))
@@ -287,7 +298,8 @@ def main(tier, replay_file=None):
                              "1473..1600: can never fit), content symbolic",
                     bus="per frame: deliver / lose / duplicate (solver choice); "
                         "returned data and 16-bit working counters symbolic",
-                    cancellation="any one request, before or after it was sent",
+                    cancellation="any one request: before its coroutine starts, right "
+                                 "after it was queued, or after it was sent",
                     scheduling="asyncio's FIFO ready queue (its documented "
                                "contract); interleavings arise from the choice "
                                "of cancellation point, bus action and frame "
